@@ -5,6 +5,7 @@ go 1.25.0
 require (
 	github.com/anishathalye/porcupine v1.3.0
 	github.com/pdfcpu/pdfcpu v0.0.0
+	golang.org/x/crypto v0.54.0
 	golang.org/x/image v0.44.0
 	golang.org/x/text v0.40.0
 )
@@ -14,7 +15,6 @@ require (
 	github.com/hhrutter/tiff v1.0.6 // indirect
 	github.com/mattn/go-runewidth v0.0.27 // indirect
 	go.yaml.in/yaml/v3 v3.0.5 // indirect
-	golang.org/x/crypto v0.54.0 // indirect
 )
 
 replace github.com/pdfcpu/pdfcpu => /repo
